@@ -1,3 +1,4 @@
+@bias.setter
 def spec(self, value):
     if hasattr(self, 'bias_'):
         self.bias_.data = value
